@@ -12,10 +12,15 @@ S = "include/iora/network/websocket_server.hpp"
 C = "include/iora/network/websocket_client.hpp"
 
 SERVER_FUNCS = ["sendText", "sendBinary", "sendPing", "sendClose", "handleFrame", "handleDataFrame", "onUpgradedData"]
-CLIENT_FUNCS = ["sendText", "sendBinary", "sendPing", "sendClose", "handleFrame", "handleDataFrame", "handleData"]
+CLIENT_FUNCS = ["sendText", "sendBinary", "sendPing", "sendClose", "handleFrame", "handleDataFrame", "handleData", "teardownTransport"]
+H = "include/iora/network/http_server.hpp"
 # other functions that may mention the flag / the raw send without being a send path
 SERVER_OTHER = {"isSessionActive": ["closeSent"]}
-CLIENT_OTHER = {"doConnect": ["_closeSent"], "sendRawBytes": ["sendRawBytes"]}
+CLIENT_OTHER = {"doConnect": ["_closeSent"], "sendRawBytes": ["sendRawBytes", "sendAsync"]}
+# every way a WebSocket frame reaches the transport: the raw-send helper of the class, or the transport's sendAsync directly
+# (WebSocketClient::teardownTransport hands its courtesy CLOSE frame to a snapshot `t` of the transport)
+SERVER_RAW = (r"sendRaw", ["sendRaw"])
+CLIENT_RAW = (r"(?:sendRawBytes|\w+->sendAsync)", ["sendRawBytes", "sendAsync"])
 
 
 def tok_re(flag, rawsend):
@@ -137,7 +142,8 @@ def member_functions(src):
     return out
 
 
-def class_skeleton(src, cls, funcs, other, flag, rawsend, flagname):
+def class_skeleton(src, cls, funcs, other, flag, raw, flagname):
+    rawsend, rawwords = raw
     defs = member_functions(src)
     rows = []
     for fn in funcs:
@@ -149,7 +155,7 @@ def class_skeleton(src, cls, funcs, other, flag, rawsend, flagname):
     for n, b in defs:
         if n in known:
             continue
-        uses = [w for w in (flagname if flagname.startswith("_") else "closeSent", rawsend) if re.search(r"(?<![\w])%s\b" % re.escape(w), b)]
+        uses = [w for w in [flagname if flagname.startswith("_") else "closeSent"] + rawwords if re.search(r"(?<![\w])%s\b" % re.escape(w), b)]
         # nested definitions (lambdas inside a known function) are part of that function's body and already scanned
         if not uses:
             continue
@@ -158,6 +164,118 @@ def class_skeleton(src, cls, funcs, other, flag, rawsend, flagname):
             if w not in allowed and not any(b in kb for kn, kb in defs if kn in known and kb is not b):
                 raise TranslateError("%s::%s uses %s but is not a known send path" % (cls, n, w))
     return rows
+
+
+def _first(pat, text, flags=0):
+    m = re.search(pat, text, flags)
+    return m.start() if m else -1
+
+
+def handover_facts(hsrc, ssrc):
+    """Shape facts of the HTTP -> WebSocket hand-over (http_server.hpp handleIncomingData / processHttpRequest /
+    handleSessionClosed, websocket_server.hpp onUpgradeRequest / onSessionClosed). A function that is missing altogether
+    is a fact `false` (the obligation C18_handover_pinned then fails to build); a function present in a shape the scanner
+    cannot read raises."""
+    facts = []
+    order = []
+    try:
+        hid = cxxscan.function_body(hsrc, "handleIncomingData")
+        # since the transport-epoch fix there is a forwarding overload; the worker body is the one that takes the epoch
+        php = cxxscan.function_body(hsrc, "processHttpRequest", signature_contains="std::uint64_t epoch") \
+            if re.search(r"processHttpRequest\([^)]*std::uint64_t epoch", hsrc) else cxxscan.function_body(hsrc, "processHttpRequest")
+        our = cxxscan.function_body(ssrc, "onUpgradeRequest")
+    except cxxscan.ScanError as e:
+        raise TranslateError("hand-over: %s" % e)
+    maxbuf = cxxscan.find_int(r"MAX_BUFFER_SIZE\s*=\s*([^;]+);", hsrc, "SessionInfo::MAX_BUFFER_SIZE")
+    # (1) the head of handleIncomingData: ONE _sessionMutex section that tests the hold first (append + return), then the route
+    head = re.search(r"std::lock_guard\s*<\s*std::mutex\s*>\s*lock\s*\(\s*_sessionMutex\s*\)\s*;(?P<sec>.*?)isUpgraded\s*=\s*_upgradedSessions\.count\(sid\)\s*>\s*0\s*;\s*\}", hid, re.S)
+    if not head:
+        raise TranslateError("handleIncomingData: the upgraded-session test is not in the known shape")
+    sec = head.group("sec")
+    hold = re.search(r"if\s*\(\s*_upgradePending\.count\(sid\)\s*>\s*0\s*\)\s*\{", sec)
+    held_ok = False
+    if hold:
+        b = sec[hold.end() - 1:cxxscan.match_brace(sec, hold.end() - 1)]
+        held_ok = bool(re.search(r"buffer\.size\(\)\s*\+\s*len\s*>\s*SessionInfo::MAX_BUFFER_SIZE", b)) and \
+            bool(re.search(r"buffer\.append\([^;]*\bdata\b[^;]*\blen\s*\)\s*;\s*return\s*;", b)) and "onUpgradedData" not in b
+    facts.append(("holdCheckedBeforeRoute", held_ok))
+    # (2) the request loop: notices the Upgrade header, sets the hold in the section that stores the rest, then leaves the loop
+    saw = bool(re.search(r"else\s+if\s*\(\s*key\s*==\s*\"upgrade\"\s*\)\s*\{\s*haveUpgrade\s*=\s*true\s*;\s*\}", hid))
+    setw = bool(re.search(r"it->second\.buffer\s*=\s*dataStr\s*;\s*if\s*\(\s*haveUpgrade\s*\)\s*\{\s*_upgradePending\.insert\(sid\)\s*;\s*\}", hid))
+    facts.append(("holdSetWithRest", saw and setw))
+    enq = _first(r"_threadPool\.tryEnqueue\(", hid)
+    brk = _first(r"if\s*\(\s*haveUpgrade\s*\)\s*\{\s*break\s*;\s*\}", hid)
+    facts.append(("loopStopsAfterUpgrade", enq >= 0 and brk > enq and bool(re.search(r"processHttpRequest\(sid,\s*requestData,\s*(?:epoch,\s*)?haveUpgrade\)", hid))))
+    # (3) the pool thread: hook, 101, drain loop that releases the hold in the section that finds the buffer empty
+    i_hook = _first(r"\bonUpgradeRequest\(sid,\s*req,\s*upgradeRes\)", php)
+    i_send = _first(r"_transport->sendAsync\(sid,\s*sharedResponseData->data\(\)", php[i_hook:]) + i_hook if i_hook >= 0 else -1
+    if i_hook < 0 or i_send < i_hook:
+        raise TranslateError("processHttpRequest: upgrade hook / 101 response not in the known shape")
+    rest = php[i_send:]
+    loop = re.search(r"for\s*\(\s*;\s*;\s*\)\s*\{", rest)
+    drain_ok = False
+    if loop:
+        lb = rest[loop.end() - 1:cxxscan.match_brace(rest, loop.end() - 1)]
+        drain_ok = bool(re.search(
+            r"std::lock_guard\s*<\s*std::mutex\s*>\s*lock\s*\(\s*_sessionMutex\s*\)\s*;\s*auto\s+it\s*=\s*_sessionInfo\.find\(sid\)\s*;\s*"
+            r"if\s*\(\s*it\s*!=\s*_sessionInfo\.end\(\)\s*&&\s*!it->second\.buffer\.empty\(\)\s*&&\s*_upgradedSessions\.count\(sid\)\s*>\s*0\s*\)\s*"
+            r"\{\s*remaining\s*=\s*std::move\(it->second\.buffer\)\s*;\s*it->second\.buffer\.clear\(\)\s*;\s*\}\s*"
+            r"else\s*\{\s*_upgradePending\.erase\(sid\)\s*;\s*break\s*;\s*\}\s*\}\s*(?:try\s*\{\s*)?onUpgradedData\(sid,", lb))
+    facts.append(("drainReleasesWhenEmpty", drain_ok))
+    facts.append(("holdReleasedOnEveryExit", bool(re.search(r"~UpgradeHoldRelease\s*\(\s*\)\s*\{\s*if\s*\(\s*armed\s*\)\s*\{\s*std::lock_guard\s*<\s*std::mutex\s*>\s*lock\s*\(\s*self->_sessionMutex\s*\)\s*;\s*self->_upgradePending\.erase\(sid\)\s*;", php))
+                  and bool(re.search(r"upgradeHoldRelease\s*\{\s*this\s*,\s*sid\s*,\s*holdsUpgrade\s*\}", php))))
+    # (4) transport close: HTTP state released under the lock, then the hook with no lock; the WebSocket server erases its entry
+    try:
+        hsc = cxxscan.function_body(hsrc, "handleSessionClosed")
+        osc = cxxscan.function_body(ssrc, "onSessionClosed")
+        close_ok = bool(re.search(r"_upgradePending\.erase\(sid\)\s*;\s*\}\s*onSessionClosed\(sid\)\s*;\s*$", hsc.strip())) and \
+            bool(re.search(r"handleSessionClosed\(sid\)", hsrc.replace(hsc, ""))) and \
+            bool(re.search(r"^\s*std::lock_guard\s*<\s*std::mutex\s*>\s*lock\s*\(\s*_wsMutex\s*\)\s*;\s*_sessions\.erase\(sid\)\s*;\s*$", osc))
+    except cxxscan.ScanError:
+        close_ok = False
+    facts.append(("closeHookErases", close_ok))
+    # the order of the pool thread's steps: inside the hook (mark, create, connect), then respond, then drain
+    pos = [("mark", _first(r"\bmarkSessionUpgraded\(sid\)", our)), ("create", _first(r"_sessions\[sid\]\s*=\s*WsSessionState\{\}", our)),
+           ("connect", _first(r"\b_onConnect\(sid,", our))]
+    if any(p < 0 for _, p in pos):
+        raise TranslateError("WebSocketServer::onUpgradeRequest: mark / create / connect not found")
+    order = [n for n, _ in sorted(pos, key=lambda x: x[1])] + ["respond"] + (["drain"] if loop else ["drain-once"])
+    # the header checks of onUpgradeRequest, in their order: tokens compared and the statuses answered
+    m1 = re.search(r'if\s*\(\s*upgradeLower\s*!=\s*"([^"]+)"\s*\)\s*\{\s*return\s+false\s*;', our)
+    m2 = re.search(r'if\s*\(\s*connLower\.find\(\s*"([^"]+)"\s*\)\s*==\s*std::string::npos\s*\)\s*\{\s*res\.status\s*=\s*(\d+)\s*;', our)
+    m3 = re.search(r'if\s*\(\s*wsKey\.empty\(\)\s*\)\s*\{\s*res\.status\s*=\s*(\d+)\s*;', our)
+    m4 = re.search(r'if\s*\(\s*wsVersion\s*!=\s*"([^"]+)"\s*\)\s*\{\s*res\.status\s*=\s*(\d+)\s*;', our)
+    if not (m1 and m2 and m3 and m4) or not (m1.start() < m2.start() < m3.start() < m4.start() < pos[0][1]):
+        raise TranslateError("WebSocketServer::onUpgradeRequest: header checks not in the known shape/order")
+    if not re.search(r"std::transform\(upgradeLower\.begin\(\),\s*upgradeLower\.end\(\),\s*upgradeLower\.begin\(\),\s*::tolower\)", our) or \
+       not re.search(r"std::transform\(connLower\.begin\(\),\s*connLower\.end\(\),\s*connLower\.begin\(\),\s*::tolower\)", our):
+        raise TranslateError("WebSocketServer::onUpgradeRequest: case folding of Upgrade / Connection not found")
+    checks = {"tokWebsocket": list(m1.group(1).encode()), "tokUpgrade": list(m2.group(1).encode()), "tokVersion": list(m4.group(1).encode()),
+              "statuses": [int(m2.group(2)), int(m3.group(1)), int(m4.group(2))]}
+    return maxbuf, facts, order, checks
+
+
+def connect_resets(csrc):
+    """the per-connection state `doConnect` re-arms before it registers the callbacks, as the list of fields reset"""
+    try:
+        dc = cxxscan.function_body(csrc, "doConnect")
+    except cxxscan.ScanError as e:
+        raise TranslateError("doConnect: %s" % e)
+    cut = _first(r"\bt->onData\(", dc)
+    if cut < 0:
+        raise TranslateError("doConnect: callback registration (t->onData) not found")
+    pre = dc[:cut]
+    pats = [("_buffer", r"std::lock_guard\s*<\s*std::mutex\s*>\s*lock\s*\(\s*_dataMutex\s*\)\s*;[^{}]*\b_buffer\.clear\(\)\s*;"),
+            ("_fragmentBuffer", r"std::lock_guard\s*<\s*std::mutex\s*>\s*lock\s*\(\s*_dataMutex\s*\)\s*;[^{}]*\b_fragmentBuffer\.clear\(\)\s*;"),
+            ("_fragmentOpcode", r"std::lock_guard\s*<\s*std::mutex\s*>\s*lock\s*\(\s*_dataMutex\s*\)\s*;[^{}]*\b_fragmentOpcode\s*=\s*WsOpcode::CONTINUATION\s*;"),
+            ("_upgradeComplete", r"\b_upgradeComplete\.store\(\s*false\s*\)\s*;"),
+            ("_closeEchoed", r"\b_closeEchoed\.store\(\s*false\s*\)\s*;"),
+            ("_protocolFailed", r"\b_protocolFailed\.store\(\s*false\s*\)\s*;"),
+            ("_closeSent", r"std::lock_guard\s*<\s*std::mutex\s*>\s*sendLock\s*\(\s*_sendMutex\s*\)\s*;\s*_closeSent\s*=\s*false\s*;")]
+    found = [n for n, p in pats if re.search(p, pre)]
+    if re.search(r"\.store\(\s*true\s*\)|_closeSent\s*=\s*true", pre):
+        raise TranslateError("doConnect: a per-connection flag is SET before the callbacks are registered (unknown shape)")
+    return found
 
 
 def lean_skel(rows):
@@ -206,8 +324,10 @@ def gen(repo):
     cping = cxxscan.function_body(csrc, "sendPing")
     sp = cxxscan.find_int(r"^\s*if\s*\(\s*payload\.size\(\)\s*>\s*(\w+)\s*\)\s*\{?\s*return\s*;", sping, "server sendPing payload guard")
     cp = cxxscan.find_int(r"^\s*if\s*\(\s*payload\.size\(\)\s*>\s*(\w+)\s*\)\s*\{?\s*return\s*;", cping, "client sendPing payload guard")
-    srows = class_skeleton(ssrc, "WebSocketServer", SERVER_FUNCS, SERVER_OTHER, r"(?:\w+(?:->|\.))*closeSent", "sendRaw", "closeSent")
-    crows = class_skeleton(csrc, "WebSocketClient", CLIENT_FUNCS, CLIENT_OTHER, r"_closeSent", "sendRawBytes", "_closeSent")
+    srows = class_skeleton(ssrc, "WebSocketServer", SERVER_FUNCS, SERVER_OTHER, r"(?:\w+(?:->|\.))*closeSent", SERVER_RAW, "closeSent")
+    crows = class_skeleton(csrc, "WebSocketClient", CLIENT_FUNCS, CLIENT_OTHER, r"_closeSent", CLIENT_RAW, "_closeSent")
+    hand = handover_facts(read(repo, H), ssrc)
+    resets = connect_resets(csrc)
     t = HEADER % (F + ", " + S + ", " + C)
     t += "namespace Iora.Gen.Ws\n"
     t += "/-- `enum class WsOpcode` enumerators (name, value) -/\n"
@@ -230,5 +350,19 @@ def gen(repo):
     t += "flag, make (frame factory), send (raw send; object = kind of the frame made last), call, callback, erase, return -/\n"
     t += "def serverSkeleton : List (String × List (String × String × String)) := %s\n" % lean_skel(srows)
     t += "def clientSkeleton : List (String × List (String × String × String)) := %s\n" % lean_skel(crows)
+    maxbuf, facts, order, checks = hand
+    t += "/-- `HttpServer::SessionInfo::MAX_BUFFER_SIZE`: bytes held back per session while an upgrade is pending -/\n"
+    t += "def httpMaxBufferSize : Nat := %d\n" % maxbuf
+    t += "/-- shape facts of the HTTP -> WebSocket hand-over (http_server.hpp handleIncomingData / processHttpRequest /\n"
+    t += "handleSessionClosed, websocket_server.hpp onSessionClosed), see tools/tr_ws.py handover_facts -/\n"
+    t += "def handoverFacts : List (String × Bool) := [%s]\n" % ", ".join('("%s", %s)' % (n, "true" if v else "false") for n, v in facts)
+    t += "/-- the pool thread's steps of an accepted upgrade, in textual order -/\n"
+    t += "def upgradeWorkerOrder : List String := [%s]\n" % ", ".join('"%s"' % n for n in order)
+    t += "/-- `onUpgradeRequest` header checks: the value `Upgrade` must equal (lower-cased), the token `Connection` must contain\n"
+    t += "(lower-cased), the only version accepted, and the statuses answered when Connection / key / version fail -/\n"
+    t += "def upgTokWebsocket : List Nat := %s\ndef upgTokUpgrade : List Nat := %s\ndef upgTokVersion : List Nat := %s\ndef upgStatuses : List Nat := %s\n" % (
+        lean_nat_list(checks["tokWebsocket"]), lean_nat_list(checks["tokUpgrade"]), lean_nat_list(checks["tokVersion"]), lean_nat_list(checks["statuses"]))
+    t += "/-- the per-connection fields `WebSocketClient::doConnect` resets before it registers the transport callbacks -/\n"
+    t += "def clientConnectResets : List String := [%s]\n" % ", ".join('"%s"' % n for n in resets)
     t += "end Iora.Gen.Ws\n"
     return "IoraModel/Gen/Ws.lean", t
